@@ -97,11 +97,12 @@ CLAIMED = {
         'a dfa that ends terminal ran exactly `repeat` initial-->terminal cycles and a cycle stalling non-terminal fails the parse; for every legitimate history of '
         'next/push/peek/chain, taken ++ remaining = everything supplied and sent = |taken| (and sent + |remaining| is conserved for any history).  Tie: live machine graphs '
         'are dumped and run through the extracted interpreter against machine.run() (limits 0..5 around 8 leaf parsers, length/count-prefixed bodies, regex repeats, '
-        'all inputs over {a,b} up to length 5); random op sequences on the real source classes; library parsers with decide edges run under a run/delegate monitor with '
-        'a byte-level framing oracle.',
-   note='Trusted: Coq kernel; extraction + driver; the graph dumper (props/engine_common.py) which refuses what the interpreter does not cover (decide/predicate edges, '
-        'callable limits, recognizers, custom process/terminate) - those library parsers (SSTRING, STRING, EPATH, CPF, typed_data, status) are judged on the implementation '
-        'by the monitor (sent <= resolved ending, ending never relaxed, sent = pulled - held) and by framing predicted from the raw bytes.  Complete inputs only; fresh '
+        'all inputs over {a,b} up to length 5); random op sequences on the real source classes; 13 library parsers (decide edges and callable limits answered by oracle '
+        'tapes recorded from the implementation) through the interpreter and under a run/delegate monitor with a byte-level framing oracle.',
+   note='Trusted: Coq kernel; extraction + driver; the graph dumper (props/engine_common.py); decide predicates and callable limits are external calls whose outcomes are recorded from the '
+        'implementation\'s run (oracle tapes; theorems hold for every tape); move_if data effects are not modelled (data of such machines not compared); the dumper refuses '
+        'recognizers, tuple symbols, unknown process/terminate overrides; the monitor (sent <= resolved ending, ending never relaxed, sent = pulled - held) and framing '
+        'predicted from the raw bytes judge the implementation independently.  Complete inputs only; fresh '
         'machines (cpppo dfas keep cycle/final from an earlier run, which leaks into .terminal for repeat=0 over a nested dfa - described in DESIGN.md).',
    technique='Coq proof (induction over interpreter fuel / operation histories) + model/implementation correspondence + runtime monitor', design='6 C10'),
  'C02': dict(
